@@ -251,12 +251,14 @@ class FakeShutil:
             raise FileNotFoundError(src)
         self.fs.files[dst] = self.fs.files.pop(src)
         self.fs.history.append((src, None))
+        self.fs.history.append((dst, self.fs.files[dst]))
         return dst
 
     def copy(self, src, dst):
         if src not in self.fs.files:
             raise FileNotFoundError(src)
         self.fs.files[dst] = self.fs.files[src]
+        self.fs.history.append((dst, self.fs.files[dst]))
         return dst
 
     copyfile = copy
@@ -338,6 +340,7 @@ class FakeOs:
         if src in self.fs.links:
             self.fs.links[dst] = self.fs.links.pop(src)
         self.fs.history.append((src, None))
+        self.fs.history.append((dst, self.fs.files[dst]))      # what the destination holds from now on
 
     def open(self, path, flags, mode=0o777, *a, **k):
         return self.fs.os_open(path, flags, mode)
